@@ -8,6 +8,12 @@ NewTypes, Annotated variants, recursive and mutually recursive models, requests 
 churn the normalisation LRU, replace() / extend(), loaders obtained earlier).  After every step the outcome of a probe
 battery on the warm object is compared with the outcome on a freshly constructed equal retort.
 
+Retorts in retorts: the recipe of the warm retort may hold inner retorts bound to model classes (``bound(Model, Retort(...))``,
+one or two levels, drawn as the ``nest`` of the case or added later by extend()), the pool holds cycle families (garden, ring,
+chain, mamb, node) whose type cycles pass through inner-owned classes and whose fields are equal as locations at different
+depths, and the histories request the hints of a family in every order (machine rules + the exhaustive side table
+``nested_cycle_cases``).  A fresh retort gets fresh inner retorts.
+
 A history is pure data (list of steps); ``check_case`` re-executes it without Hypothesis.
 """
 from __future__ import annotations
@@ -44,7 +50,7 @@ from hypothesis import strategies as st  # noqa: E402
 from hypothesis.stateful import RuleBasedStateMachine, rule, run_state_machine_as_test  # noqa: E402
 
 import adaptix  # noqa: E402
-from adaptix import DebugTrail, NameStyle, P, Retort, loader, name_mapping  # noqa: E402
+from adaptix import DebugTrail, NameStyle, P, Retort, bound, loader, name_mapping  # noqa: E402
 from adaptix.conversion import ConversionRetort, coercer  # noqa: E402
 from adaptix.struct_trail import get_trail  # noqa: E402
 
@@ -182,6 +188,75 @@ class MB:
     a: Optional["MA"] = None
 
 
+# ---- models whose type cycles are meant to CROSS RETORT BOUNDARIES: a retort placed in the recipe of another retort with
+# ``bound(Model, inner_retort)`` ("Retort extension and combination") serves some classes of a cycle, the enclosing retort
+# serves the others.  Every family has a cycle, roots outside the cycle, and fields that are EQUAL AS LOCATIONS (name, type,
+# default) at different depths (CPark.owner / CGarden.owner / CLeaf.owner; RRoot.a / RC.a; SHead.nxt / SNode.nxt; MRoot.b / MA.b),
+# because whatever a retort remembers about a location is confused by them.
+@dataclasses.dataclass
+class CLeaf:
+    owner: "CTree"
+    tag: int = 0
+
+
+@dataclasses.dataclass
+class CTree:
+    leaves: List[CLeaf] = dataclasses.field(default_factory=list)
+
+
+@dataclasses.dataclass
+class CGarden:
+    owner: CTree
+
+
+@dataclasses.dataclass
+class CPark:
+    garden: CGarden
+    owner: CTree
+
+
+@dataclasses.dataclass
+class RA:
+    b: Optional["RB"] = None
+    n: int = 0
+
+
+@dataclasses.dataclass
+class RB:
+    c: Optional["RC"] = None
+
+
+@dataclasses.dataclass
+class RC:
+    a: Optional[RA] = None
+    b: Optional[RB] = None
+
+
+@dataclasses.dataclass
+class RRoot:
+    a: Optional[RA] = None
+    c: Optional[RC] = None
+    b: Optional[RB] = None
+
+
+@dataclasses.dataclass
+class SNode:
+    nxt: Optional["SNode"] = None
+    v: int = 0
+
+
+@dataclasses.dataclass
+class SHead:
+    nxt: Optional[SNode] = None
+    items: List[SNode] = dataclasses.field(default_factory=list)
+
+
+@dataclasses.dataclass
+class MRoot:
+    b: Optional[MB] = None
+    a: Optional[MA] = None
+
+
 class Unloadable:
     """No provider can load or dump this class."""
 
@@ -242,7 +317,19 @@ POOL: Dict[str, Any] = {
     "EnumA": EnumA, "EnumB": EnumB, "EnumModel": EnumModel, "ListEnumB": List[EnumB],
     "PropA": PropA, "PropB": PropB,
     "DefF": DefF, "Def0": Def0, "Def0f": Def0f, "DefT": DefT, "Def1": Def1,
+    "CLeaf": CLeaf, "CTree": CTree, "CGarden": CGarden, "CPark": CPark, "ListCLeaf": List[CLeaf],
+    "RA": RA, "RB": RB, "RC": RC, "RRoot": RRoot, "SNode": SNode, "SHead": SHead, "MRoot": MRoot,
 }
+# cycle families: the request names of one family (members of the cycle and roots pointing into it) and the classes an inner
+# retort may be bound to
+CYCLE_FAMILIES: Dict[str, Dict[str, List[str]]] = {
+    "garden": {"types": ["CLeaf", "CTree", "CGarden", "CPark", "ListCLeaf"], "bindable": ["CLeaf", "CTree", "CGarden"]},
+    "ring": {"types": ["RA", "RB", "RC", "RRoot"], "bindable": ["RA", "RB", "RC"]},
+    "chain": {"types": ["SNode", "SHead"], "bindable": ["SNode", "SHead"]},
+    "mamb": {"types": ["MA", "MB", "MRoot"], "bindable": ["MA", "MB"]},
+    "node": {"types": ["Node", "ListNode"], "bindable": ["Node"]},
+}
+FAMILY_OF = {t: f for f, d in CYCLE_FAMILIES.items() for t in d["types"]}
 CONFUSABLE_GROUPS = [
     {"Lit01", "LitFT", "Lit0", "LitF", "Lit1T", "OptLit0", "OptLitF"}, {"ListLit01", "ListLitFT"}, {"TupLit1T", "TupLitT1"},
     {"DictLit01", "DictLitFT"}, {"LitModel01", "LitModelFT"}, {"ListInt", "listint", "SeqInt", "list", "List", "TupInts", "ListBool", "ListAny"},
@@ -251,7 +338,9 @@ CONFUSABLE_GROUPS = [
     {"Node", "ListNode"}, {"MA", "MB"}, {"RNode", "Wrap", "HasUnloadable", "Unloadable", "ListUnloadable"},
     {"DictStrInt", "dict", "DictStrBool"}, {"EnumA", "EnumB", "EnumModel", "ListEnumB"},
     {"PropA", "PropB"}, {"DefF", "Def0", "Def0f", "DefT", "Def1"},
+    {"CLeaf", "CTree", "CGarden", "CPark", "ListCLeaf"}, {"RA", "RB", "RC", "RRoot"}, {"SNode", "SHead"},
 ]
+CONFUSABLE_GROUPS[[i for i, g in enumerate(CONFUSABLE_GROUPS) if "MA" in g][0]].add("MRoot")
 GROUP_OF = {name: i for i, g in enumerate(CONFUSABLE_GROUPS) for name in g}
 
 BATTERY = [0, 1, True, False, None, "a", "1", 1.0, [0, 1], [True, False], [1, True], (1, True), (True, 1), [], ["a"], [1, "a"], {},
@@ -270,6 +359,39 @@ DUMP_VALUES = {
     "ListEnumB": lambda: [EnumB.SMALL], "PropA": lambda: PropA(3), "PropB": lambda: PropB(3),
     "DefF": DefF, "Def0": Def0, "Def0f": Def0f, "DefT": DefT, "Def1": Def1,   # instances holding exactly the defaults
 }
+
+# probe data of the cycle families: deep enough to reach every loader of the cycle a second time (a recursion stub that was never
+# bound only fails when the data reaches it), valid and invalid.  The hints of the cycle families are probed with this battery
+# (plus a few look-alikes), the older hints with BATTERY.
+_G1 = {"owner": {"leaves": [{"owner": {"leaves": []}}, {"owner": {"leaves": [{"owner": {"leaves": []}, "tag": 5}]}, "tag": 1}]}}
+_R1 = {"a": {"b": {"c": {"a": {"b": {"c": None}, "n": 1}, "b": {"c": {"a": None}}}}}, "b": {"c": {"a": {"n": 2}}},
+       "c": {"a": {"b": {"c": {"b": {}}}}}, "n": 7}
+CYC_BATTERY = [
+    _G1, {"leaves": [{"owner": {"leaves": [{"owner": {"leaves": []}}]}, "tag": 1}]}, {"garden": _G1, "owner": {"leaves": [{"owner": {"leaves": []}}]}},
+    {"owner": {"leaves": [{"owner": {"leaves": [{"owner": 3}]}}]}}, [{"owner": {"leaves": [{"owner": {"leaves": []}}]}}, {"owner": {}}],
+    _R1, {"c": {"a": {"b": {"c": {"a": {"b": {"c": {}}}, "b": {}}}}}}, {"a": {"b": {"c": {"a": {"n": "bad"}}}}, "b": {"c": {"b": {"c": 1}}}},
+    {"nxt": {"nxt": {"nxt": None, "v": 2}, "v": 1}, "items": [{"nxt": {"v": 3}}]}, {"nxt": {"nxt": {"v": "bad"}}},
+    {"b": {"w": "s", "a": {"v": 1, "b": {"w": "t", "a": {"v": 3}}}}, "a": {"v": 1, "b": {"w": "s", "a": {"v": 2}}}, "v": 4, "w": "w"},
+    {"value": 1, "children": [{"value": 2, "children": [{"value": 3, "children": []}]}]}, [{"value": 1, "children": [{"value": 2, "children": []}]}],
+    {}, None, 0, [], "a",
+]
+
+
+def battery_for(tname):
+    return CYC_BATTERY if tname in FAMILY_OF else BATTERY
+
+
+DUMP_VALUES.update({
+    "CLeaf": lambda: CLeaf(CTree([CLeaf(CTree([]), 2)])), "CTree": lambda: CTree([CLeaf(CTree([CLeaf(CTree())]))]),
+    "CGarden": lambda: CGarden(CTree([CLeaf(CTree([CLeaf(CTree([]), 3)]))])),
+    "CPark": lambda: CPark(CGarden(CTree([CLeaf(CTree([CLeaf(CTree())]))])), CTree([CLeaf(CTree())])),
+    "ListCLeaf": lambda: [CLeaf(CTree([CLeaf(CTree())])), CLeaf(CTree())],
+    "RA": lambda: RA(RB(RC(RA(RB(RC())), RB(RC(RA(n=2)))))), "RB": lambda: RB(RC(RA(RB(RC(b=RB()))), RB())),
+    "RC": lambda: RC(RA(RB(RC(RA()))), RB(RC(b=RB()))), "RRoot": lambda: RRoot(RA(RB(RC(RA(RB())))), RC(RA(RB(RC())), RB(RC())), RB(RC(RA()))),
+    "SNode": lambda: SNode(SNode(SNode(None, 3), 2), 1), "SHead": lambda: SHead(SNode(SNode(None, 2), 1), [SNode(SNode())]),
+    "MB": lambda: MB("s", MA(1, MB("t", MA(2)))), "MRoot": lambda: MRoot(MB("s", MA(1, MB("t"))), MA(2, MB("u", MA(3)))),
+    "ListNode": lambda: [Node(1, [Node(2, [Node(3, [])])])],
+})
 
 
 def _int_plus(x):
@@ -297,6 +419,62 @@ RECIPES = {
     "with_property_two_classes": lambda: [adaptix.with_property(P[PropA, PropB], "area")],
     "omit_default": lambda: [name_mapping(omit_default=True)],
 }
+
+
+# ---- retorts placed in the recipe of a retort.  A *nest* is pure data: a list of bindings
+#     {"to": [class names], "inner": <nest of the inner retort>, "recipe": name of a flat recipe, "debug": 0..2}
+# Each binding makes ONE inner Retort(recipe=<inner nest> + <flat recipe>) and binds it to every class of "to" with bound().
+NEST_FLAT = {"none": lambda: [], "int_plus": lambda: [loader(int, _int_plus)]}
+
+
+def build_nest(nest):
+    out = []
+    for b in nest:
+        kw = {} if b.get("debug") is None else {"debug_trail": DEBUG[b["debug"]]}
+        inner = Retort(recipe=[*build_nest(b.get("inner", [])), *NEST_FLAT[b.get("recipe", "none")]()], **kw)
+        out += [bound(POOL[c], inner) for c in b["to"]]
+    return out
+
+
+def nest_depth(nest):
+    return max((1 + nest_depth(b.get("inner", [])) for b in nest), default=0)
+
+
+def nest_families(nest):
+    return sorted({FAMILY_OF[c] for b in nest for c in b["to"]} | {f for b in nest for f in nest_families(b.get("inner", []))})
+
+
+# nests as named recipes: reachable by extend() (a retort can get an inner retort later) and as the whole recipe of the warm retort
+NEST_RECIPES = {
+    "nest_leaf": [{"to": ["CLeaf"]}],
+    "nest_tree_in_leaf": [{"to": ["CLeaf"], "inner": [{"to": ["CTree"]}]}],
+    "nest_rb_rc": [{"to": ["RB"], "recipe": "int_plus"}, {"to": ["RC"]}],
+    "nest_snode_mb": [{"to": ["SNode", "MB"], "debug": 0}],
+}
+RECIPES.update({name: (lambda spec=spec: build_nest(spec)) for name, spec in NEST_RECIPES.items()})
+
+
+def args_nests(args):
+    """Every nest a retort with these construction arguments holds."""
+    return [args.get("nest", []), *[NEST_RECIPES[n] for n in [args["recipe"], *args.get("extended", [])] if n in NEST_RECIPES]]
+
+
+def inner_owned(nest):
+    return {c for b in nest for c in b["to"]} | {c for b in nest for c in inner_owned(b.get("inner", []))}
+
+
+def nest_labels(world):
+    nests = [n for _, args in world.retorts.values() for n in args_nests(args) if n]
+    if not nests:
+        return []
+    owned = set().union(*[inner_owned(n) for n in nests])
+    cyc = [t for t in world.requested if t in FAMILY_OF]
+    out = [f"nest:depth{max(nest_depth(n) for n in nests)}", *[f"nestfam:{f}" for n in nests for f in nest_families(n)]]
+    if cyc:
+        out.append("cyc:inner_owned_first" if cyc[0] in owned else "cyc:outer_first")
+        if len(set(cyc)) >= 2:
+            out.append("cyc:two_hints_of_a_nested_cycle")
+    return sorted(set(out))
 CONV_PAIRS = {"A1->A2": (A1, A2), "A1->Dst1": (A1, Dst1), "A2->Dst1": (A2, Dst1), "A1->DstOpt": (A1, DstOpt),
               "A1->DstBad": (A1, DstBad), "A1Twin->Dst1": (A1Twin, Dst1), "NT1->A1": (NT1, A1), "A2->A1": (A2, A1),
               "LitModel01->LitModelFT": (LitModel01, LitModelFT), "MA->MA": (MA, MA)}
@@ -331,6 +509,8 @@ class World:
     def __init__(self, init):
         self.init = init
         self.providers = RECIPES[init["recipe"]]()
+        self.nest = build_nest(init.get("nest", []))          # inner retorts of the warm retort: built once, warmed with it
+        self._own_ext = {}
         self.warm = self.make_fresh()
         self.warm_conv = ConversionRetort()
         self.retorts = {"warm": (self.warm, dict(init))}     # name -> (retort, construction args)
@@ -344,6 +524,8 @@ class World:
         # extend() prepends: the effective recipe is ext_n + ... + ext_1 + base
         for name in reversed(a.get("extended", [])):
             recipe += self._ext_providers(name) if args is None else RECIPES[name]()
+        # a fresh retort gets fresh inner retorts as well (build_nest constructs new ones): "constructed afresh with the same arguments"
+        recipe += self.nest if args is None else build_nest(a.get("nest", []))
         # the warm retort is built once from one set of provider objects; a fresh retort for a probe gets provider objects
         # of its own ("fresh" must not inherit whatever the requests did to the warm retort's providers)
         recipe += self.providers if args is None else RECIPES[a["recipe"]]()
@@ -352,9 +534,12 @@ class World:
     _ext_cache: dict = {}
 
     def _ext_providers(self, name):
-        if name not in self._ext_cache:
-            self._ext_cache[name] = RECIPES[name]()
-        return self._ext_cache[name]
+        # recipes holding retorts are kept per World (per case): an inner retort shared between cases would make a case depend
+        # on the cases executed before it in the process, and a replay could not reproduce it
+        cache = self._own_ext if name.startswith("nest_") else self._ext_cache
+        if name not in cache:
+            cache[name] = RECIPES[name]()
+        return cache[name]
 
 
 def probe_type(world: World, rname: str, tname: str):
@@ -367,7 +552,7 @@ def probe_type(world: World, rname: str, tname: str):
     if cw[0] != cf[0] or (cw[0] == "err" and cw[1] != cf[1]):
         diffs.append((f"get_loader({tname})", cw[:2] if cw[0] == "err" else "ok", cf[:2] if cf[0] == "err" else "ok"))
     elif cw[0] == "ok":
-        for d in BATTERY:
+        for d in battery_for(tname):
             ow, of = outcome(cw[1], d), outcome(cf[1], d)
             if ow != of:
                 diffs.append((f"load({d!r}, {tname})", ow, of))
@@ -423,7 +608,8 @@ def apply_step(world: World, step):  # noqa: C901, PLR0912
         world.requested.append(step["t"])
         try:
             if op == "load":
-                retort.load(BATTERY[step["d"] % len(BATTERY)], tp)
+                bat = battery_for(step["t"])
+                retort.load(bat[step["d"] % len(bat)], tp)
             elif op == "dump":
                 if step["t"] in DUMP_VALUES:
                     retort.dump(DUMP_VALUES[step["t"]](), tp)
@@ -440,7 +626,8 @@ def apply_step(world: World, step):  # noqa: C901, PLR0912
         tp = POOL[step["t"]]
         world.requested.append(step["t"])
         try:
-            adaptix.load(BATTERY[step["d"] % len(BATTERY)], tp)
+            bat = battery_for(step["t"])
+            adaptix.load(bat[step["d"] % len(bat)], tp)
         except BaseException:  # noqa: BLE001, S110
             pass
         probes.append(("module", step["t"]))
@@ -500,7 +687,7 @@ def run_probes(ctx, world, probes, history):
             fresh = Retort()
             tp = POOL[pr[1]]
             diffs = []
-            for d in BATTERY:
+            for d in battery_for(pr[1]):
                 ow, of = outcome(adaptix.load, d, tp), outcome(fresh.load, d, tp)
                 if ow != of:
                     diffs.append((f"adaptix.load({d!r}, {pr[1]})", ow, of))
@@ -521,7 +708,7 @@ def run_probes(ctx, world, probes, history):
         cf = creation(fresh.get_loader, POOL[tname])
         if cf[0] != "ok":
             continue
-        for d in BATTERY[:12]:
+        for d in battery_for(tname)[:12]:
             ow, of = outcome(ld, d), outcome(cf[1], d)
             if ow != of:
                 ctx.violation("old_loader_changed", (tname, str(ow[0]) + "/" + str(of[0])), {"init": world.init, "history": list(history)},
@@ -542,7 +729,7 @@ def check_case(ctx: runner.Ctx, case):
     ctx.case([case], confusable_pairs >= 1 and len(case["history"]) >= 2,
              sample={"init": case["init"], "history": case["history"][:12], "steps": len(case["history"])},
              labels=[f"steps:{min(len(case['history']) // 10, 6)}0+", f"recipe:{case['init']['recipe']}",
-                     *[f"op:{s['op']}" for s in case["history"]],
+                     *[f"op:{s['op']}" for s in case["history"]], *nest_labels(world),
                      *[f"group:{g}" for g in sorted({g for g in groups if g is not None})][:6]])
 
 
@@ -564,6 +751,19 @@ def partner(draw, t):
     return draw(st.sampled_from(others)) if others else None
 
 
+def _st_binding(fam, depth):
+    opt = {"recipe": st.sampled_from(sorted(NEST_FLAT)), "debug": st.integers(0, 2)}
+    if depth > 0:
+        opt["inner"] = st.lists(_st_binding(fam, depth - 1), min_size=1, max_size=1)
+    return st.fixed_dictionaries(
+        {"to": st.lists(st.sampled_from(CYCLE_FAMILIES[fam]["bindable"]), min_size=1, max_size=2, unique=True)}, optional=opt)
+
+
+# one or two bindings (each of a family of its own choice), one or two levels of retorts in retorts
+ST_NEST = st.lists(st.sampled_from(sorted(CYCLE_FAMILIES)).flatmap(lambda fam: _st_binding(fam, 1)), min_size=1, max_size=2)
+CYC_OPS = ["load", "get_loader", "dump", "get_dumper"]
+
+
 class HistoryMachine(RuleBasedStateMachine):
     def __init__(self):
         super().__init__()
@@ -575,7 +775,25 @@ class HistoryMachine(RuleBasedStateMachine):
         if self.world is None:
             self.init = {"recipe": data.draw(st.sampled_from(sorted(RECIPES))), "strict": data.draw(st.booleans()),
                          "debug": data.draw(st.integers(0, 2))}
+            nest = data.draw(st.one_of(st.just(None), st.just(None), st.just(None), ST_NEST))
+            if nest:
+                self.init["nest"] = nest
             self.world = World(self.init)
+
+    def cycle_families(self):
+        """The cycle families some retort of the world has an inner retort for."""
+        return sorted({f for _, args in self.world.retorts.values() for n in args_nests(args) for f in nest_families(n)})
+
+    @rule(data=st.data(), op=st.sampled_from(CYC_OPS), d=st.integers(0, 40), with_also=st.booleans())
+    def request_cycle(self, data, op, d, with_also):
+        """A hint of a cycle family -- of one that crosses a retort boundary in this world if there is any."""
+        self.ensure(data)
+        fam = data.draw(st.sampled_from(self.cycle_families() or sorted(CYCLE_FAMILIES)))
+        types = CYCLE_FAMILIES[fam]["types"]
+        step = {"op": op, "t": data.draw(st.sampled_from(types)), "d": d, "r": data.draw(st.sampled_from(sorted(self.world.retorts)))}
+        if with_also:
+            step["also"] = data.draw(st.sampled_from(types))
+        self.do(step)
 
     def do(self, step):
         self.history.append(step)
@@ -587,6 +805,10 @@ class HistoryMachine(RuleBasedStateMachine):
     def request(self, data, op, t, d, with_partner):
         self.ensure(data)
         rname = data.draw(st.sampled_from(sorted(self.world.retorts)))
+        fams = self.cycle_families()
+        if fams and data.draw(st.integers(0, 2)) == 0:
+            # a world with inner retorts spends a third of its plain requests on the cycles that pass through them
+            t = data.draw(st.sampled_from(CYCLE_FAMILIES[data.draw(st.sampled_from(fams))]["types"]))
         step = {"op": op, "t": t, "d": d, "r": rname}
         if with_partner:
             p = partner(data.draw, t)
@@ -650,7 +872,7 @@ class HistoryMachine(RuleBasedStateMachine):
                              self.world.requested[i] not in self.world.requested[:i])
             ctx.case([self.init, self.history], confusable >= 1 and len(self.history) >= 2,
                      sample={"init": self.init, "history": self.history[:12], "steps": len(self.history)},
-                     labels=[f"recipe:{self.init['recipe']}", *[f"op:{s['op']}" for s in self.history],
+                     labels=[f"recipe:{self.init['recipe']}", *[f"op:{s['op']}" for s in self.history], *nest_labels(self.world),
                              *[f"group:{g}" for g in sorted({g for g in groups if g is not None})][:8]])
 
 
@@ -684,11 +906,47 @@ SCENARIOS = [
 ]
 
 
+CYC_OP_PAIRS = [("load", "get_loader"), ("get_loader", "load"), ("dump", "get_dumper"), ("get_dumper", "dump")]
+
+
+def nested_cycle_cases(full: bool):
+    """Exhaustive side table through the same oracle (check_case): every cycle family x every placement of inner retorts (each
+    bindable class alone, one inner retort for two classes, every ordered pair class -> class one level deeper) x every ordered
+    pair (thorough: and triple) of distinct hints of the family x the facade calls of the history (quick: one pair of calls per
+    history, taken in rotation; thorough: all four -- the probes after every step call get_loader / load / get_dumper / dump for
+    the hints anyway, so the call only decides which of them comes first).  The order of the requests is the point: a member
+    of the cycle before a root and a root before a member, inner-owned before outer-owned and vice versa."""
+    cases = []
+    for fam in sorted(CYCLE_FAMILIES):
+        bindable, types = CYCLE_FAMILIES[fam]["bindable"], CYCLE_FAMILIES[fam]["types"]
+        nests = [[{"to": [c]}] for c in bindable]
+        nests += [[{"to": [c1], "inner": [{"to": [c2]}]}] for c1 in bindable for c2 in bindable if c1 != c2]
+        if len(bindable) >= 2:
+            nests.append([{"to": bindable[:2]}])
+        orders = [(a, b) for a in types for b in types if a != b]
+        if full:
+            orders += [(a, b, c) for a in types for b in types for c in types if len({a, b, c}) == 3]
+        for nest in nests:
+            for order in orders:
+                for op1, op2 in (CYC_OP_PAIRS if full else [CYC_OP_PAIRS[len(cases) % 4]]):
+                    i = len(cases)
+                    hist = [{"op": (op1, op2)[k % 2], "t": t, "d": i + k, "r": "warm"} for k, t in enumerate(order)]
+                    hist[-1]["also"] = order[0]
+                    cases.append({"init": {"recipe": "none", "strict": bool(i % 2), "debug": i % 3, "nest": nest}, "history": hist})
+    return cases
+
+
 def explore(ctx: runner.Ctx):
     _CTX[:] = [ctx]
     if ctx.shard == 0:
         for sc in SCENARIOS:
             check_case(ctx, sc)
+    table = nested_cycle_cases(full=ctx.tier != "quick")
+    for i, case in enumerate(table):
+        if i % ctx.nshards == ctx.shard:
+            check_case(ctx, case)
+    if ctx.shard == 0:
+        ctx.mark_exhaustive(f"nested retorts x cycle families x request orders: {len(table)} histories")
     n_machines = ctx.budget(120, 10000)
     machine = hypothesis.seed(ctx.seed)(HistoryMachine)
     run_state_machine_as_test(machine, settings=hypothesis.settings(
@@ -698,12 +956,17 @@ def explore(ctx: runner.Ctx):
 
 RULE = ("cases = generated histories (up to 40 steps) of facade calls on a warm Retort / ConversionRetort / module-level facade "
         "over a pool of ~60 mutually confusable hints, with replace(), extend(), LRU churn and failing requests; after every "
-        "step a probe battery of 33 data is compared between the warm object and a fresh equal retort. Non-trivial = the "
-        "history requests >= 2 distinct hints of one confusable group. Distinct by (init, history).")
+        "step a probe battery of 33 data is compared between the warm object and a fresh equal retort. Recipes may hold inner "
+        "retorts bound to model classes (one or two levels); type cycles of five families pass through the inner-owned classes; "
+        "an exhaustive side table runs every placement of inner retorts x every order of two (thorough: three) hints of a family "
+        "through the same oracle. Non-trivial = the history requests >= 2 distinct hints of one confusable group. "
+        "Distinct by (init, history).")
 
 if __name__ == "__main__":
     raise SystemExit(runner.main(
         PROP, explore=explore, check_case=check_case, strategy=None, rule=RULE,
         assumptions=["the same provider objects are given to the warm and to the fresh retort (providers are immutable)",
+                     "retorts placed in a recipe are part of the construction: the fresh retort of a probe gets freshly built inner "
+                     "retorts, the warm retort keeps the ones it was built with (and clones made by replace/extend share them)",
                      "outcomes are compared as (ok, structural value) or (err, flattened exception classes and trails)"],
     ))
